@@ -3,298 +3,45 @@
 
 package tty
 
-// Conformance harness for C17 (terminal emulator vs. reference terminal) and the
-// common driver of C18 (terminal / console agreement).
+// Conformance harness for C17 (terminal emulator vs. reference terminal) and the common driver
+// of C18 (terminal / console agreement).
 //
-// It contains no oracle: it turns an operation list into calls of the REAL tty.VT
-// (AttachTo, WriteByte, SetCursorPosition, SetState), recovers panics into events
-// and logs, per call, the projected state: CursorPosition(), viewportY, at
-// checkpoints the whole buffer as cell codes, and the console side (calls the
-// terminal made, what every console cell shows).  Every event is judged by the
-// TLA+ monitor specs/tty/VTTrace.tla.
+// It contains no oracle: it turns an operation list into calls of the REAL tty.VT (AttachTo,
+// WriteByte, SetCursorPosition, SetState), recovers panics into events and logs, per call, the
+// projected state (c17_screen_shim.go): CursorPosition(), viewportY, at checkpoints the whole
+// buffer as cell codes, and the console side (calls the terminal made, what every console cell
+// shows).  Every event is judged by the TLA+ monitor specs/tty/VTTrace.tla.
 //
-// Cell code = ((bg*257)+fg)*256+ch  (fg 256 = "any", see specs/tty/VT.tla).
-// uint32 arguments are logged saturated at 2^30 (TLC integers are 32 bit).
+// The cases run in a CHILD process with a CPU-time watchdog: an operation of the code under test
+// that does not return within C17_CPU_MS of process CPU time is logged as res:"hang" (that the
+// call never returned is an observation for the monitor, not a failure of the machinery); the
+// parent restarts the child with the next case.
 //
-// Entry points:
+// Entry points (parents):
 //   TestVerifC17Cases  : replay the operation lists TLC emitted from VTModel (leg G)
 //   TestVerifC17Random : seeded random streams at real scale (leg T)
-// env: CASES, TRACE_OUT, VERIF_SEED, VERIF_TIER, VERIF_TTY_CONS (comma list of console
-// kinds: rec | vga | fb; the real consoles need c18_consoles_test.go), NTRACES.
+// env: CASES, TRACE_OUT (+ TRACE_OUT.inputs: the exact input of every case, one line per case),
+// VERIF_SEED, VERIF_TIER, VERIF_TTY_CONS (comma list of console kinds: rec | vga | fb; the real
+// consoles need c18_consoles_shim.go), VERIF_TTY_KINDMOD, NTRACES, VERIF_LEG.
 
 import (
 	"bufio"
 	"encoding/json"
-	"image/color"
+	"fmt"
 	"math/rand"
 	"os"
+	"os/exec"
 	"strconv"
 	"strings"
+	"sync"
+	"sync/atomic"
+	"syscall"
 	"testing"
-
-	"github.com/ProjectSerenity/firefly/kernel/device/video/console"
+	"time"
 )
 
-const c17Sat = 1 << 30
-
-func c17SatU32(v uint32) int {
-	if v > c17Sat {
-		return c17Sat
-	}
-	return int(v)
-}
-
-func c17Code(ch, fg, bg uint8) int { return ((int(bg)*257)+int(fg))*256 + int(ch) }
-
-// c17Screen is a console whose cell contents can be projected.
-type c17Screen interface {
-	console.Device
-	// c17Cells returns what every cell of the grid shows, row by row, as cell codes (-1 = garbage).
-	c17Cells() []int
-	// c17Outside returns the number of bytes outside the cell grid that differ from their value at set-up time.
-	c17Outside() int
-	// c17Describe adds the description of the console (kind, glyph classes, configuration) to the attach event.
-	c17Describe(e map[string]interface{})
-}
-
-// ---------------------------------------------------------------------------------------------
-// recording console: a plain grid that stores what the terminal tells it (in-range semantics of
-// the shipped text console: Write stores the triple, Scroll moves lines, Fill stores blanks).
-type c17RecCons struct {
-	w, h  uint32
-	cells []int
-}
-
-func newC17RecCons(w, h uint32) *c17RecCons {
-	c := &c17RecCons{w: w, h: h, cells: make([]int, w*h)}
-	for i := range c.cells {
-		c.cells[i] = c17Code('?', 9, 9) // something the terminal never writes, so a redraw is visible
-	}
-	return c
-}
-func (c *c17RecCons) Dimensions(console.Dimension) (uint32, uint32) { return c.w, c.h }
-func (c *c17RecCons) DefaultColors() (uint8, uint8)                 { return 7, 0 }
-func (c *c17RecCons) Fill(x, y, w, h uint32, fg, bg uint8) {
-	// the cells of the rectangle [x, x+w) x [y, y+h) that exist
-	for yy := uint64(1); yy <= uint64(c.h); yy++ {
-		for xx := uint64(1); xx <= uint64(c.w); xx++ {
-			if xx >= uint64(x) && xx < uint64(x)+uint64(w) && yy >= uint64(y) && yy < uint64(y)+uint64(h) {
-				c.cells[(yy-1)*uint64(c.w)+xx-1] = c17Code(' ', fg, bg)
-			}
-		}
-	}
-}
-func (c *c17RecCons) Scroll(dir console.ScrollDir, lines uint32) {
-	if lines == 0 || lines > c.h {
-		return
-	}
-	if dir == console.ScrollDirUp {
-		copy(c.cells, c.cells[lines*c.w:])
-	} else {
-		copy(c.cells[lines*c.w:], c.cells[:(c.h-lines)*c.w])
-	}
-}
-func (c *c17RecCons) Write(ch byte, fg, bg uint8, x, y uint32) {
-	if x >= 1 && y >= 1 && x <= c.w && y <= c.h {
-		c.cells[(y-1)*c.w+x-1] = c17Code(ch, fg, bg)
-	}
-}
-func (c *c17RecCons) Palette() color.Palette            { return nil }
-func (c *c17RecCons) SetPaletteColor(uint8, color.RGBA) {}
-func (c *c17RecCons) c17Cells() []int                   { return append([]int(nil), c.cells...) }
-func (c *c17RecCons) c17Outside() int                   { return 0 }
-func (c *c17RecCons) c17Describe(e map[string]interface{}) {
-	e["cons"] = "rec"
-	e["gc"], e["gi"] = []int{}, []int{}
-}
-
-// ---------------------------------------------------------------------------------------------
-// c17Proxy sits between the terminal and the console and records every call.
-type c17Proxy struct {
-	in    c17Screen
-	cc    int
-	calls [][]int
-}
-
-func (p *c17Proxy) Dimensions(d console.Dimension) (uint32, uint32) { return p.in.Dimensions(d) }
-func (p *c17Proxy) DefaultColors() (uint8, uint8)                   { return p.in.DefaultColors() }
-func (p *c17Proxy) Palette() color.Palette                          { return p.in.Palette() }
-func (p *c17Proxy) SetPaletteColor(i uint8, c color.RGBA) {
-	p.cc++
-	p.in.SetPaletteColor(i, c)
-}
-func (p *c17Proxy) Fill(x, y, w, h uint32, fg, bg uint8) {
-	p.cc++
-	p.calls = append(p.calls, []int{2, c17SatU32(x), c17SatU32(y), c17SatU32(w), c17SatU32(h), int(fg), int(bg)})
-	if x > 1<<12 || y > 1<<12 || w > 1<<12 || h > 1<<12 {
-		// Logged (the monitor rejects a call outside the grid) but not forwarded: the clipping of the shipped
-		// consoles wraps for such arguments and then loops for minutes (C19); the terminal never makes
-		// such a call on the unchanged tree.
-		return
-	}
-	p.in.Fill(x, y, w, h, fg, bg)
-}
-func (p *c17Proxy) Scroll(dir console.ScrollDir, lines uint32) {
-	p.cc++
-	p.calls = append(p.calls, []int{3, int(dir), c17SatU32(lines)})
-	p.in.Scroll(dir, lines)
-}
-func (p *c17Proxy) Write(ch byte, fg, bg uint8, x, y uint32) {
-	p.cc++
-	p.calls = append(p.calls, []int{1, int(ch), int(fg), int(bg), c17SatU32(x), c17SatU32(y)})
-	p.in.Write(ch, fg, bg, x, y)
-}
-
-// ---------------------------------------------------------------------------------------------
 type c17Geom struct {
 	W, H, SB, Tab int
-}
-
-// c17MakeConsole builds a console of w x h cells of the given kind.  The real consoles are
-// registered by c18_consoles_test.go.
-var c17MakeConsole = map[string]func(t *testing.T, w, h uint32, rng *rand.Rand) c17Screen{
-	"rec": func(_ *testing.T, w, h uint32, _ *rand.Rand) c17Screen { return newC17RecCons(w, h) },
-}
-
-type c17Log struct {
-	enc    *json.Encoder
-	ienc   *json.Encoder // the exact input of every case, one line per case, for replay files
-	events int
-	cases  int
-}
-
-func (l *c17Log) emit(e map[string]interface{}) { l.enc.Encode(e); l.events++ }
-
-// an operation: {0,b} WriteByte(b); {1,x,y} SetCursorPosition (-1 = 2^32-1); {2,a} SetState(a)
-func c17Arg(v int64) uint32 {
-	if v < 0 {
-		return 0xffffffff
-	}
-	return uint32(v)
-}
-
-func c17Observe(e map[string]interface{}, vt *VT, p *c17Proxy, cp bool) {
-	x, y := vt.CursorPosition()
-	e["cx"], e["cy"], e["vy"] = c17SatU32(x), c17SatU32(y), c17SatU32(vt.viewportY)
-	e["cc"] = p.cc
-	if p.calls == nil {
-		e["calls"] = [][]int{}
-	} else {
-		e["calls"] = p.calls
-	}
-	e["out"] = p.in.c17Outside()
-	if cp {
-		n := len(vt.data) / 3
-		d := make([]int, n)
-		for i := 0; i < n; i++ {
-			d[i] = c17Code(vt.data[3*i], vt.data[3*i+1], vt.data[3*i+2])
-		}
-		e["cp"], e["data"], e["scr"] = 1, d, p.in.c17Cells()
-	} else {
-		e["cp"], e["data"], e["scr"] = 0, []int{}, []int{}
-	}
-	p.cc, p.calls = 0, nil
-}
-
-// c17RunCase drives one real VT through c.Ops and logs one event per call.  c.Cp = n: the full
-// buffer / screen is logged every n-th event, after every state change and at the end (0, 1: always).
-// c.Cfg seeds the generator the console constructor draws its configuration from.
-func c17RunCase(t *testing.T, l *c17Log, c c17Case) {
-	kind, g, ops, cpEvery := c.Kind, c17Geom{c.W, c.H, c.SB, c.Tab}, c.Ops, c.Cp
-	mk := c17MakeConsole[kind]
-	if mk == nil {
-		t.Fatalf("console kind %q is not available in this build", kind)
-	}
-	c.ID, c.Leg = l.cases, os.Getenv("VERIF_LEG")
-	l.ienc.Encode(c)
-	scr := mk(t, uint32(g.W), uint32(g.H), rand.New(rand.NewSource(c.Cfg)))
-	p := &c17Proxy{in: scr}
-	vt := NewVT(uint8(g.Tab), uint32(g.SB))
-	e := map[string]interface{}{"k": "attach", "sb": g.SB, "tab": g.Tab, "id": c.ID, "leg": os.Getenv("VERIF_LEG")}
-	res := func() (r string) {
-		defer func() {
-			if x := recover(); x != nil {
-				r = "panic"
-			}
-		}()
-		vt.AttachTo(p)
-		return "ok"
-	}()
-	w, h := scr.Dimensions(console.Characters)
-	fg, bg := scr.DefaultColors()
-	e["w"], e["h"], e["dfg"], e["dbg"], e["res"] = int(w), int(h), int(fg), int(bg), res
-	scr.c17Describe(e)
-	c17Observe(e, vt, p, res == "ok")
-	l.emit(e)
-	for i, op := range ops {
-		if res != "ok" {
-			break
-		}
-		e = map[string]interface{}{}
-		cp := cpEvery <= 1 || (i+1)%cpEvery == 0 || i == len(ops)-1
-		res = func() (r string) {
-			defer func() {
-				if x := recover(); x != nil {
-					r = "panic"
-				}
-			}()
-			switch op[0] {
-			case 0:
-				e["k"], e["b"] = "w", int(op[1])
-				if err := vt.WriteByte(byte(op[1])); err != nil {
-					return "err"
-				}
-			case 1:
-				x, y := c17Arg(op[1]), c17Arg(op[2])
-				e["k"], e["x"], e["y"] = "cur", c17SatU32(x), c17SatU32(y)
-				vt.SetCursorPosition(x, y)
-			case 2:
-				e["k"], e["a"] = "st", int(op[1])
-				cp = true
-				if op[1] == 1 {
-					vt.SetState(StateActive)
-				} else {
-					vt.SetState(StateInactive)
-				}
-			}
-			return "ok"
-		}()
-		e["res"] = res
-		c17Observe(e, vt, p, cp && res == "ok")
-		l.emit(e)
-	}
-	l.emit(map[string]interface{}{"k": "reset"})
-	l.cases++
-}
-
-func c17Open(t *testing.T) (*c17Log, *rand.Rand, func()) {
-	seed, _ := strconv.ParseInt(os.Getenv("VERIF_SEED"), 10, 64)
-	out, err := os.Create(os.Getenv("TRACE_OUT"))
-	if err != nil {
-		t.Fatal(err)
-	}
-	inputs, err := os.Create(os.Getenv("TRACE_OUT") + ".inputs")
-	if err != nil {
-		t.Fatal(err)
-	}
-	bw := bufio.NewWriterSize(out, 1<<20)
-	bi := bufio.NewWriterSize(inputs, 1<<20)
-	l := &c17Log{enc: json.NewEncoder(bw), ienc: json.NewEncoder(bi)}
-	return l, rand.New(rand.NewSource(seed)), func() {
-		bw.Flush()
-		bi.Flush()
-		out.Close()
-		inputs.Close()
-		os.Stdout.WriteString("VERIF-STATS cases=" + strconv.Itoa(l.cases) + " events=" + strconv.Itoa(l.events) + "\n")
-	}
-}
-
-func c17Kinds() []string {
-	k := os.Getenv("VERIF_TTY_CONS")
-	if k == "" {
-		k = "rec"
-	}
-	return strings.Split(k, ",")
 }
 
 type c17Case struct {
@@ -313,10 +60,259 @@ type c17Case struct {
 	Leg  string `json:"leg"`
 }
 
+// an operation: {0,b} WriteByte(b); {1,x,y} SetCursorPosition (-1 = 2^32-1); {2,a} SetState(a)
+func c17Arg(v int64) uint32 {
+	if v < 0 {
+		return 0xffffffff
+	}
+	return uint32(v)
+}
+
+// ---------------------------------------------------------------------------------------------
+// event log + watchdog state (child process)
+
+const c17ExitHang = 77
+
+type c17Log struct {
+	mu      sync.Mutex
+	w       *bufio.Writer
+	enc     *json.Encoder
+	seq     int64                  // incremented before every call of the code under test
+	active  int32                  // 1 while such a call is in flight
+	caseIdx int64                  // index of the running case
+	pending map[string]interface{} // kind + arguments of the call in flight
+}
+
+func (l *c17Log) emit(e map[string]interface{}) {
+	l.mu.Lock()
+	l.enc.Encode(e)
+	l.mu.Unlock()
+}
+
+// call runs f (one call of the code under test) under the watchdog; e holds kind and arguments.
+func (l *c17Log) call(e map[string]interface{}, f func() string) (res string) {
+	l.mu.Lock()
+	l.pending = e
+	l.mu.Unlock()
+	atomic.AddInt64(&l.seq, 1)
+	atomic.StoreInt32(&l.active, 1)
+	defer atomic.StoreInt32(&l.active, 0)
+	defer func() {
+		if x := recover(); x != nil {
+			res = "panic"
+		}
+	}()
+	return f()
+}
+
+func c17CPU() time.Duration {
+	var ru syscall.Rusage
+	syscall.Getrusage(syscall.RUSAGE_SELF, &ru)
+	return time.Duration(ru.Utime.Nano() + ru.Stime.Nano())
+}
+
+func (l *c17Log) watchdog(limit time.Duration, progress string) {
+	var seen int64 = -1
+	var cpu0 time.Duration
+	for {
+		time.Sleep(20 * time.Millisecond)
+		if atomic.LoadInt32(&l.active) == 0 {
+			seen = -1
+			continue
+		}
+		seq, now := atomic.LoadInt64(&l.seq), c17CPU()
+		if seq != seen {
+			seen, cpu0 = seq, now
+			continue
+		}
+		if now-cpu0 < limit {
+			continue
+		}
+		l.mu.Lock()
+		if atomic.LoadInt32(&l.active) == 1 && atomic.LoadInt64(&l.seq) == seq {
+			// the call in flight did not return within the CPU budget: that is the observation
+			e := map[string]interface{}{}
+			for k, v := range l.pending {
+				e[k] = v
+			}
+			e["res"], e["msg"] = "hang", fmt.Sprintf("no return after %d ms of CPU time", (now-cpu0)/time.Millisecond)
+			e["cx"], e["cy"], e["vy"], e["cc"], e["out"], e["cp"] = 0, 0, 0, 0, 0, 0
+			e["calls"], e["data"], e["scr"] = [][]int{}, []int{}, []int{}
+			l.enc.Encode(e)
+			l.enc.Encode(map[string]interface{}{"k": "reset"})
+			l.w.Flush()
+			os.WriteFile(progress, []byte(strconv.FormatInt(atomic.LoadInt64(&l.caseIdx), 10)+"\n"), 0644)
+			os.Exit(c17ExitHang)
+		}
+		l.mu.Unlock()
+	}
+}
+
+// c17RunCase drives one real VT through c.Ops and logs one event per call.  c.Cp = n: the full
+// buffer / screen is logged every n-th event, after every state change and at the end (0, 1: always).
+// c.Cfg seeds the generator the console constructor draws its configuration from.
+func c17RunCase(l *c17Log, c c17Case) {
+	g, ops, cpEvery := c17Geom{c.W, c.H, c.SB, c.Tab}, c.Ops, c.Cp
+	cons := VerifC18NewConsole(c.Kind, uint32(g.W), uint32(g.H), rand.New(rand.NewSource(c.Cfg)))
+	p := cons.p
+	vt := NewVT(uint8(g.Tab), uint32(g.SB))
+	e := map[string]interface{}{"k": "attach", "sb": g.SB, "tab": g.Tab, "id": c.ID, "leg": c.Leg}
+	cons.Describe(e)
+	res := l.call(e, func() string {
+		vt.AttachTo(p)
+		return "ok"
+	})
+	e["res"] = res
+	c17Observe(e, vt, p, res == "ok")
+	l.emit(e)
+	for i, op := range ops {
+		if res != "ok" {
+			break
+		}
+		e = map[string]interface{}{}
+		cp := cpEvery <= 1 || (i+1)%cpEvery == 0 || i == len(ops)-1
+		var f func() string
+		switch op[0] {
+		case 0:
+			e["k"], e["b"] = "w", int(op[1])
+			f = func() string {
+				if err := vt.WriteByte(byte(op[1])); err != nil {
+					return "err"
+				}
+				return "ok"
+			}
+		case 1:
+			x, y := c17Arg(op[1]), c17Arg(op[2])
+			e["k"], e["x"], e["y"] = "cur", c17SatU32(x), c17SatU32(y)
+			f = func() string { vt.SetCursorPosition(x, y); return "ok" }
+		default:
+			e["k"], e["a"] = "st", int(op[1])
+			cp = true
+			f = func() string {
+				if op[1] == 1 {
+					vt.SetState(StateActive)
+				} else {
+					vt.SetState(StateInactive)
+				}
+				return "ok"
+			}
+		}
+		res = l.call(e, f)
+		e["res"] = res
+		c17Observe(e, vt, p, cp && res == "ok")
+		l.emit(e)
+	}
+	l.emit(map[string]interface{}{"k": "reset"})
+}
+
+// ---------------------------------------------------------------------------------------------
+// child: runs the cases of TRACE_OUT.inputs from C17_START on, appending to TRACE_OUT
+func TestVerifC17Child(t *testing.T) {
+	if os.Getenv("C17_CHILD") != "1" {
+		t.Skip("child process of TestVerifC17Cases / TestVerifC17Random only")
+	}
+	start, _ := strconv.Atoi(os.Getenv("C17_START"))
+	in, err := os.Open(os.Getenv("TRACE_OUT") + ".inputs")
+	if err != nil {
+		t.Fatal(err)
+	}
+	defer in.Close()
+	out, err := os.OpenFile(os.Getenv("TRACE_OUT"), os.O_APPEND|os.O_CREATE|os.O_WRONLY, 0644)
+	if err != nil {
+		t.Fatal(err)
+	}
+	l := &c17Log{w: bufio.NewWriterSize(out, 1<<20)}
+	l.enc = json.NewEncoder(l.w)
+	limit, _ := strconv.Atoi(os.Getenv("C17_CPU_MS"))
+	if limit == 0 {
+		limit = 3000
+	}
+	go l.watchdog(time.Duration(limit)*time.Millisecond, os.Getenv("C17_PROGRESS"))
+	sc := bufio.NewScanner(in)
+	sc.Buffer(make([]byte, 1<<24), 1<<24)
+	for i := 0; sc.Scan(); i++ {
+		if i < start {
+			continue
+		}
+		var c c17Case
+		if err := json.Unmarshal(sc.Bytes(), &c); err != nil {
+			t.Fatalf("bad input line %d: %v", i, err)
+		}
+		atomic.StoreInt64(&l.caseIdx, int64(i))
+		c17RunCase(l, c)
+	}
+	l.mu.Lock()
+	l.w.Flush()
+	out.Close()
+	l.mu.Unlock()
+}
+
+// c17Drive writes the inputs file and runs the child, restarting it after a call that the watchdog cut off.
+func c17Drive(t *testing.T, cases []c17Case) {
+	tr := os.Getenv("TRACE_OUT")
+	inputs, err := os.Create(tr + ".inputs")
+	if err != nil {
+		t.Fatal(err)
+	}
+	bi := bufio.NewWriterSize(inputs, 1<<20)
+	ienc := json.NewEncoder(bi)
+	leg := os.Getenv("VERIF_LEG")
+	for i := range cases {
+		cases[i].ID, cases[i].Leg = i, leg
+		ienc.Encode(cases[i])
+	}
+	bi.Flush()
+	inputs.Close()
+	if err := os.WriteFile(tr, nil, 0644); err != nil {
+		t.Fatal(err)
+	}
+	work := os.Getenv("VERIF_WORK")
+	if work == "" {
+		work = os.TempDir()
+	}
+	progress := fmt.Sprintf("%s/c17.progress.%d", work, os.Getpid())
+	defer os.Remove(progress)
+	start, hangs := 0, 0
+	for start < len(cases) {
+		cmd := exec.Command(os.Args[0], "-test.run", "^TestVerifC17Child$", "-test.timeout", "3000s")
+		cmd.Env = append(os.Environ(), "C17_CHILD=1", "C17_START="+strconv.Itoa(start), "C17_PROGRESS="+progress)
+		outb, err := cmd.CombinedOutput()
+		if err == nil {
+			break
+		}
+		ee, ok := err.(*exec.ExitError)
+		if !ok || ee.ExitCode() != c17ExitHang {
+			t.Fatalf("child process failed: %v\n%s", err, outb)
+		}
+		b, rerr := os.ReadFile(progress)
+		if rerr != nil {
+			t.Fatal(rerr)
+		}
+		ci, _ := strconv.Atoi(strings.TrimSpace(string(b)))
+		start = ci + 1
+		if hangs++; hangs >= 8 {
+			break // the code under test keeps hanging: the remaining cases are skipped
+		}
+	}
+	os.WriteFile(tr+".status", []byte(fmt.Sprintf("{\"done\":1,\"cases\":%d,\"hangs\":%d}\n", len(cases), hangs)), 0644)
+}
+
+func c17Seed() *rand.Rand {
+	seed, _ := strconv.ParseInt(os.Getenv("VERIF_SEED"), 10, 64)
+	return rand.New(rand.NewSource(seed))
+}
+
+func c17Kinds() []string {
+	k := os.Getenv("VERIF_TTY_CONS")
+	if k == "" {
+		k = "rec"
+	}
+	return strings.Split(k, ",")
+}
+
 // leg G: operation lists emitted by TLC from the small-scope model, on every requested console kind.
 func TestVerifC17Cases(t *testing.T) {
-	l, rng, done := c17Open(t)
-	defer done()
+	rng := c17Seed()
 	in, err := os.Open(os.Getenv("CASES"))
 	if err != nil {
 		t.Fatal(err)
@@ -325,6 +321,7 @@ func TestVerifC17Cases(t *testing.T) {
 	kinds := c17Kinds()
 	kindMod, _ := strconv.Atoi(os.Getenv("VERIF_TTY_KINDMOD"))
 	n := 0
+	var cases []c17Case
 	sc := bufio.NewScanner(in)
 	sc.Buffer(make([]byte, 1<<24), 1<<24)
 	for sc.Scan() {
@@ -344,7 +341,7 @@ func TestVerifC17Cases(t *testing.T) {
 			t.Fatalf("bad case %q: %v", line, err)
 		}
 		if c.Kind != "" { // a replay file: everything is pinned
-			c17RunCase(t, l, c)
+			cases = append(cases, c)
 			continue
 		}
 		exp := []c17Case{c}
@@ -364,10 +361,11 @@ func TestVerifC17Cases(t *testing.T) {
 					continue // the real consoles replay every kindMod-th case
 				}
 				e.Kind, e.Cfg = k, int64(rng.Int31())
-				c17RunCase(t, l, e)
+				cases = append(cases, e)
 			}
 		}
 	}
+	c17Drive(t, cases)
 }
 
 // ---------------------------------------------------------------------------------------------
@@ -398,7 +396,8 @@ func c17Scales(quick bool, rng *rand.Rand) []c17Scale {
 		{c17Geom{5, 3, 0, 1}, mid / 2, 1, 12},
 		{c17Geom{2 + rng.Intn(12), 1 + rng.Intn(6), rng.Intn(5), rng.Intn(10)}, mid, 1, 30},
 		{c17Geom{2 + rng.Intn(40), 2 + rng.Intn(10), rng.Intn(12), rng.Intn(3) * 4}, mid, 13, 60},
-		{c17Geom{3, 2, 1, 255}, 300, 7, 4},
+		{c17Geom{3, 2, 1, 255}, 300, 7, 4}, // the widest tab a terminal can have (uint8), and the one below
+		{c17Geom{4, 3, 2, 254}, 200, 5, 4},
 	}
 	return s
 }
@@ -466,14 +465,14 @@ func c17Stream(rng *rand.Rand, sc c17Scale) [][]int64 {
 }
 
 func TestVerifC17Random(t *testing.T) {
-	l, rng, done := c17Open(t)
-	defer done()
+	rng := c17Seed()
 	quick := os.Getenv("VERIF_TIER") != "thorough"
 	rounds, _ := strconv.Atoi(os.Getenv("NTRACES"))
 	if rounds == 0 {
 		rounds = 1
 	}
 	kinds := c17Kinds()
+	var cases []c17Case
 	for r := 0; r < rounds; r++ {
 		for _, sc := range c17Scales(quick, rng) {
 			// big screens go to one console kind per round, the others to every requested kind
@@ -483,9 +482,10 @@ func TestVerifC17Random(t *testing.T) {
 			}
 			for _, kind := range ks {
 				ops := c17Stream(rng, sc)
-				c17RunCase(t, l, c17Case{W: sc.g.W, H: sc.g.H, SB: sc.g.SB, Tab: sc.g.Tab, Ops: ops, Kind: kind,
+				cases = append(cases, c17Case{W: sc.g.W, H: sc.g.H, SB: sc.g.SB, Tab: sc.g.Tab, Ops: ops, Kind: kind,
 					Cfg: int64(rng.Int31()), Cp: sc.cp})
 			}
 		}
 	}
+	c17Drive(t, cases)
 }
